@@ -21,7 +21,8 @@ LEVEL_TEXT = ("generated systems and valid change lists (numeric, hourly, time z
 LEVEL_NOTE = "the clone shares the library's update machinery (C01 checks that machinery against fresh builds); a second comparison with a fresh build of the target inputs is reported under its own kind"
 RULE = ("Hypothesis draws a system spec, 1-3 valid simple edits on distinct attributes and a date kind. first: after "
         "set_updated_values() every recomputed value (joined by object name, attribute) must equal the value on a clone "
-        "(build(spec) + the same changes in one ModelingUpdate) and the value of build(spec_after), rtol 1e-9. interior/"
+        "(build(spec) + the same changes in one ModelingUpdate) and the value of build(spec_after), rtol 1e-9, and with the "
+        "simulation switched on every calculated value of the model must equal the one of these references. interior/"
         "last with all patterns still active: every hourly recomputed value starts at or after the date. Always: "
         "len(values_to_recompute) == len(recomputed_values), twins linked both ways on the same attribute. before/after/"
         "naive: an exception is required and (C05) nothing changes. In 40% of the cases another simulation was created "
@@ -170,6 +171,24 @@ def check(case, ctx):
                          "simulating %s at the first hour: %d recomputed value(s) differ from %s; first %s" % (
                              [E.describe(e) for e in case["changes"]], len(problems), ref_name, problems[0]),
                          {"attr": problems[0].split(":")[0].split(".")[-1]})
+                    break
+                # and the other way round: with the simulation switched on, *every* calculated value of the model is the
+                # one of the reference (a simulation that recomputes too little - or nothing - is caught here)
+                try:
+                    sim_snap = snap.snapshot(S.reachable(objs))
+                except Exception as ex:
+                    fail("simulated_model_unreadable", "with the simulation switched on the model cannot be read: "
+                         "%s: %s" % (type(ex).__name__, str(ex)[:200]))
+                    break
+                ref_snap = snap.snapshot(ref_reach)
+                d = snap.compare(sim_snap, ref_snap, keys=sorted(set(sim_snap) & set(ref_snap)))
+                if d:
+                    fail("simulation_differs_from_real_change" if ref is really else
+                         "simulation_differs_from_fresh_build",
+                         "simulating %s at the first hour: with the simulation switched on %d calculated value(s) "
+                         "of the model differ from %s (%d value(s) were recomputed); first %s %s" % (
+                             [E.describe(e) for e in case["changes"]], len(d), ref_name, len(rv), d[0][0], d[0][1]),
+                         {"attr": d[0][0][1], "how": "not_recomputed"})
                     break
             labels.append("first_hour_equivalence_checked")
         else:
